@@ -35,6 +35,9 @@ const (
 	// We can handle only version 1.0
 	ngVersionMajor = 1
 	ngVersionMinor = 0
+
+	// ngMaxPrealloc is the maximum number of bytes that get allocated solely based on a length field read from the file
+	ngMaxPrealloc = 256 * 1024
 )
 
 type ngBlockType uint32
